@@ -31,6 +31,15 @@ Fixpoint code_weights (shape : list Z) : list Z :=
   | _ :: t => fold_left Z.mul t 1 :: code_weights t
   end.
 
+(* the weights as factorize_2d really computes them: np.cumprod(shape) in int64 - two's-complement wrap-around - and then
+   cumprod[-1] // cumprod.  Equal to [code_weights] as long as the cartesian product fits (factorize_2d folds leading keys
+   together until it is below MAX_CARTESIAN_PRODUCT = 2^62); beyond that they are what made unrelated rows share a code. *)
+Definition wrap_i64 (z : Z) : Z := (z + 2 ^ 63) mod 2 ^ 64 - 2 ^ 63.
+Fixpoint cumprod_i64 (acc : Z) (shape : list Z) : list Z :=
+  match shape with [] => [] | s :: t => let a := wrap_i64 (acc * s) in a :: cumprod_i64 a t end.
+Definition code_weights_i64 (shape : list Z) : list Z :=
+  let cp := cumprod_i64 1 shape in map (fun c => last cp 1 / c) cp.
+
 Record cstate := { tracker : list Z; group_id : Z; combined_rev : list Z; uniques_rev : list (list Z) }.
 
 Definition combine_step (weights : list Z) (st : cstate) (row : list Z) : cstate :=
